@@ -1,8 +1,12 @@
 package extract
 
 import (
+	"bytes"
 	"fmt"
 	"go/ast"
+	"go/parser"
+	"go/printer"
+	"go/token"
 	"strings"
 )
 
@@ -97,6 +101,63 @@ func init() {
 		sb.WriteString("\ndef buildNodesCalls : List String := " + LeanStrList(CallSeq(bn)) + "\n")
 		sb.WriteString("\ndef seekCalls : List String := " + LeanStrList(seekCalls) + "\n")
 		sb.WriteString("\ndef searchCalls : List String := " + LeanStrList(CallSeq(FindFunc(byName["label_vector.go"], "labelVector", "Search"))) + "\n")
+		// serialised layout: table sizes as the writer and the reader compute them, and the order of
+		// the sections in Write / UnmarshalBinary / MarshalSize
+		fieldExpr := func(e ast.Expr, what string, params []string, consts map[string]int64) (string, error) {
+			if e == nil {
+				return "", fmt.Errorf("%s: expression not found", what)
+			}
+			var buf bytes.Buffer
+			if err := printer.Fprint(&buf, token.NewFileSet(), e); err != nil {
+				return "", err
+			}
+			src := strings.ReplaceAll(buf.String(), "v.", "")
+			pe, err := parser.ParseExpr(src)
+			if err != nil {
+				return "", fmt.Errorf("%s: %w", what, err)
+			}
+			return ExprDef(pe, what, params, consts, nil)
+		}
+		retOf := func(f *ast.File, recv, fn string) ast.Expr {
+			fd := FindFunc(f, recv, fn)
+			if fd == nil || fd.Body == nil || len(fd.Body.List) != 1 {
+				return nil
+			}
+			if rs, ok := fd.Body.List[0].(*ast.ReturnStmt); ok && len(rs.Results) == 1 {
+				return rs.Results[0]
+			}
+			return nil
+		}
+		for _, d := range []struct {
+			e      ast.Expr
+			name   string
+			params []string
+		}{
+			{retOf(byName["rank.go"], "rankVector", "lutSize"), "rankLutSize", []string{"numBits", "blockSize"}},
+			{FindAssign(FindFunc(byName["rank.go"], "rankVector", "Write"), "nblks"), "rankWriteBlocks", []string{"numBits", "blockSize"}},
+			{FindAssign(FindFunc(byName["rank.go"], "rankVector", "init"), "nblks"), "rankInitBlocks", []string{"numBits", "blockSize"}},
+			{retOf(byName["select.go"], "selectVector", "lutSize"), "selectLutSize", []string{"numOnes"}},
+			{FindAssign(FindFunc(byName["select.go"], "selectVector", "Write"), "lutBlk"), "selectWriteBlocks", []string{"numOnes"}},
+		} {
+			def, err := fieldExpr(d.e, d.name, d.params, cs)
+			if err != nil {
+				return "", err
+			}
+			sb.WriteString("\n" + def)
+		}
+		sb.WriteString("\ndef writeCalls : List String := " + LeanStrList(CallSeq(FindFunc(byName["builder.go"], "builder", "Write"))) + "\n")
+		sb.WriteString("\ndef unmarshalCalls : List String := " + LeanStrList(CallSeq(FindFunc(byName["trie.go"], "trie", "UnmarshalBinary"))) + "\n")
+		sb.WriteString("\ndef marshalSizeCalls : List String := " + LeanStrList(CallSeq(FindFunc(byName["builder.go"], "builder", "MarshalSize"))) + "\n")
+		sb.WriteString("\ndef rankWriteCalls : List String := " + LeanStrList(CallSeq(FindFunc(byName["rank.go"], "rankVector", "Write"))) + "\n")
+		sb.WriteString("\ndef rankUnmarshalCalls : List String := " + LeanStrList(CallSeq(FindFunc(byName["rank.go"], "rankVector", "Unmarshal"))) + "\n")
+		sb.WriteString("\ndef pathWriteCalls : List String := " + LeanStrList(CallSeq(FindFunc(byName["label_vector.go"], "compressPathVector", "Write"))) + "\n")
+		sb.WriteString("\ndef pathUnmarshalCalls : List String := " + LeanStrList(CallSeq(FindFunc(byName["label_vector.go"], "compressPathVector", "Unmarshal"))) + "\n")
+		// like dispatch of the index kv store
+		ks, err := parse("index/kv_store.go")
+		if err != nil {
+			return "", err
+		}
+		sb.WriteString("\ndef likeCalls : List String := " + LeanStrList(CallSeq(FindFunc(ks, "indexKVStore", "FindValuesByLike"))) + "\n")
 		tb, err := parse("index/model/trie_bucket.go")
 		if err != nil {
 			return "", err
